@@ -150,7 +150,38 @@ Definition is_done (o : bobs) : bool := bstatus_eqb (bo_status o) BDone.
 (* C01: every thread ran to completion *)
 Definition mon_C01 (b : bscen) (o : bobs) : bool := is_done o.
 (* C02: exclusion, data continuity, closures under the full hold *)
-Definition mon_C02 (b : bscen) (o : bobs) : bool := let s := breplay b o in ok02 s && ok04 s.
+(* position i of a guard / closure argument is the data of member i: every data access names the lock that the declared
+   structure has at that position *)
+Record b02 := mkb02 { gc02 : tid -> option nat; calls02 : tid -> nat; okr02 : bool }.
+Definition step02 (b : bscen) (s : b02) (e : bev) : b02 :=
+  let sc := bs_sc b in
+  let cur := fun t => nth_error (nth t (bs_progs b) []) (calls02 s t) in
+  match e with
+  | BE (EData t wr pos tag _) =>
+      let items := match cur t with
+                   | Some (AAcquire c _ (FScoped _ _ | FScopedTry _ _)) => Some (gitems (shape_of sc c))
+                   | Some (AGuardRead _ | AGuardWrite _) =>
+                       match gc02 s t with Some c => Some (gitems (shape_of sc c)) | None => Some [] end
+                   | _ => None                      (* Debug formatting reads are not positional *)
+                   end in
+      let good := match items with
+                  | Some it => match nth_leaf it pos with Some (_, l) => Nat.eqb l tag | None => false end
+                  | None => true
+                  end in
+      mkb02 (gc02 s) (calls02 s) (okr02 s && good)
+  | BRet t r _ =>
+      let g := match cur t with
+               | Some (AAcquire c _ (FGuard | FTry)) => match r with ROk | RPoisoned => Some c | _ => gc02 s t end
+               | Some (AGuardDrop | AGuardUnlock | APanic | AGuardForget) => match r with RSkipped => gc02 s t | _ => None end
+               | _ => gc02 s t
+               end in
+      mkb02 (upd (gc02 s) t g) (upd (calls02 s) t (S (calls02 s t))) (okr02 s)
+  | _ => s
+  end.
+Definition mon_C02r (b : bscen) (o : bobs) : bool :=
+  okr02 (fold_left (step02 b) (bo_evs o) (mkb02 (fun _ => None) (fun _ => 0) true)).
+
+Definition mon_C02 (b : bscen) (o : bobs) : bool := let s := breplay b o in ok02 s && ok04 s && mon_C02r b o.
 (* C09: retrying acquisitions never wait while holding, and the run completes *)
 Definition mon_C09 (b : bscen) (o : bobs) : bool := ok09 (breplay b o) && is_done o.
 (* the interleaved parts of C03 / C05 *)
